@@ -4,7 +4,15 @@ NOTES = ("All checks are bounded symbolic execution of the real functions (from 
          "bounds and what lies outside them are in each evidence file (coverage.bounds / coverage.outside_bounds) and in DESIGN.md section 4. "
          "Exit 2 = inconclusive (bound hit, solver unknown, unsupported construct, translator mismatch) and never happens on the unchanged tree.")
 
+PIPE_NOTE = ("Source-level runs execute the REAL go/parser, go/types, go/cfg and the REAL NilAway stages (annotation, global, nolint, BackpropAcrossFunc, accumulation.run with both engines) from SSA, nothing stubbed; the driver, function.run's goroutine fan-out and the affiliation/anonymous-function/contract/struct-field analyzers are not part of it. Programs are enumerated from a stated grammar; the solver decides the program's run-time behaviour over all values of the opaque conditions. ")
+
 CLAIMS = {
+    "C01": dict(
+        text="For every closed one-package program of the stated grammar of the core pointer fragment (2-3 statements over two pointer locals, a package-level pointer, nil/new/copies, dereferences, nil-check guards, "
+             "early returns, opaque if / if-else, a callee in seven shapes) the real pipeline is run and the solver shows, over ALL values of the opaque conditions: if some execution of the entry function "
+             "dereferences nil then at least one diagnostic is reported; if the program has exactly one unchecked dereference and it can hit nil, a diagnostic is on its line; if every dereference is nil-checked, there is no diagnostic.",
+        note="Partial and bounded: single package, no loops/switches/methods/struct fields (see evidence.coverage.outside_bounds); the cross-package half of the statement is decided at engine level by C03/C05/C06. " + PIPE_NOTE,
+    ),
     "C19": dict(
         text="For every token value and ALL operand pairs (int64, uint64, bounded ASCII strings) the solver shows a op b == b converse(op) a == !(a inverse(op) b), "
              "both maps are involutions, commute, and panic exactly outside the six comparisons. The integer domains are complete (no bound); strings are length-bounded.",
@@ -70,8 +78,8 @@ CLAIMS = {
         text="For every guard condition up to the depth bound and ALL valuations of its atoms the solver shows: the preprocessed CFG reaches the true branch iff the original condition holds; every "
              "non-nil fact attributed to an edge is true on that edge; every leaf condition left in the CFG is canonical (`v == nil` or an opaque atom) and each canonical nil test is recognised by "
              "AddNilCheck on exactly its non-nil edge.",
-        note="Partial: recognition and branch attribution only; discharge of the dereference in the assertion tree, loops, switch-on-nil and early returns are inside C01's core (not applicable). "
-             "AddProduction is a recorder under symx; no native re-run of sampled paths for this check.",
+        note="Kernel level: recognition and branch attribution (AddProduction is a recorder under symx; no native re-run for those runs). Source level (P01.A2): every program of the C01 grammar whose dereferences "
+             "are all nil-checked - direct guards, early-return guards, repairs, across an opaque if - gets no diagnostic from the real pipeline. Loops and switch-on-nil at source level are outside. " + PIPE_NOTE,
     ),
     "C17": dict(
         text="On every explored path the driver-shared CFG (blocks, Nodes/Succs backing arrays) and AST are byte-for-byte unchanged after preprocess.CFG + blocksAndPreprocessingFromCFG + AddNilCheck, "
@@ -89,12 +97,16 @@ CLAIMS = {
         text="For every assignment of producer nilabilities (symbolic) to <=N triggers over two return statements the solver shows that FilterTriggersForErrorReturn drops value-result triggers iff the "
              "statement's error is definitely non-nil, drops the error trigger iff the error may be nil, rewrites kept consumers as the convention says and touches nothing else; and ObservePackage reports "
              "the nil value returned with a possibly-nil error through a contracted callee in all 720 trigger orders, whichever inference round incorporates the value result.",
-        note="Partial: package-level filtering only; return-expression classification and caller-side guards are outside. Found and fixed (fix: commit): controlled triggers were forgotten between the two rounds.",
+        note="Kernel level: package-level filtering. Source level (P08): for all 440 programs of a callee x caller family (two return statements, forwarding, eleven caller forms incl. overwritten error variables and "
+             "sentinel comparisons) the real pipeline reports whenever the solver finds an execution that dereferences a nil result, and is silent for a convention-respecting callee with a proper check. "
+             "ok-returning functions and named results are outside. Found and fixed (fix: commit): controlled triggers were forgotten between the two rounds. " + PIPE_NOTE,
     ),
     "C07": dict(
         text="For every failure behaviour of a wrapped sub-analyzer and of the top-level analyzer (all panic kinds, errors, missing or ill-typed results) and all analyzer names / messages (symbolic), "
              "no panic escapes: it becomes Result.Err (resp. one diagnostic at a valid position) carrying the INTERNAL PANIC prefix and the panic value; returned errors are wrapped, not lost.",
-        note="Partial: the containment clause only. Totality for every package (termination, no internal error at all) is outside this technique; see evidence.coverage.outside_bounds.",
+        note="Containment clause at kernel level; totality only for a stated family: each of 50 statement templates (thorough: all 2500 ordered pairs) and every program of the C01 grammar is analysed by the real pipeline "
+             "without panic, backpropagation error or INTERNAL diagnostic. P07 is template enumeration executed by symx (no symbolic scalars). Found and fixed (four fix: commits): function literal as switch tag, "
+             "conversion on the left of an index assignment, parenthesised multi-value call argument, negated case expression of a tagged switch. Totality for every package is outside. " + PIPE_NOTE,
     ),
     "C14": dict(
         text="For explanation chains up to length 3 with symbolic positions the recorded conflict has every flow step and its reported position is the last step of the non-nil flow; and for every "
@@ -112,7 +124,6 @@ CLAIMS = {
 
 # reasons for every property not (yet) claimed
 NOT_APPLICABLE = {
-    "C01": "The quantified object is a whole Go program (AST + types.Info + CFG + assertion-tree fixpoint); a symbolic program needs symbolic heap shape, out of reach of a bounded SSA symbolic executor. The scalar-driven parts of its mechanism are decided under C05 (flow closure) and C02/C19 (branch attribution).",
     "C16": "The quantifier is goroutine interleavings over the whole analysis heap; symx has no thread model and no installed solver-based engine explores Go schedules.",
     "C18": "Everything the property depends on is environment (process cwd captured at init, filepath.Rel, driver cwd); after stubbing those by contract the residual repo code is a one-line wrapper.",
 }
